@@ -453,7 +453,7 @@ def run_session6(case):
     from mc import session
     from mc.monitors import resample_law_monitor, coherent_monitor
 
-    return session.run_case(case, lambda: [coherent_monitor("session"), resample_law_monitor("session")], oracle=None, key_pred=lambda k: ":resample:" in k)
+    return session.run_case(case, lambda: [coherent_monitor("session"), resample_law_monitor("session")], oracle=None, key_pred=lambda k: ":resample:" in k or k.startswith("session:copy"))
 
 
 def run_sforms(case):
